@@ -16,6 +16,10 @@ EXPLANATION = ('(R1/R2) "never crashes": every panic-capable construct reachable
                'constant is stored in column 2 after the characters). That EVERY grammar string parses to its denotation is NOT decided.')
 
 
+def is_num_(v):
+    return isinstance(v, tuple) and v[0] == 'num'
+
+
 FACTS = [None]      # the facts of the current run (set by run(); guard_interval evaluates named/promoted constants through it)
 
 
@@ -512,6 +516,13 @@ def transition_lemmas(ctx, fo):
                 for c in o.pc:
                     if c[0] == 'switch' and c[1] == SYM('c'):
                         codes = c[2]
+                    elif c[0] == 'cond' and c[2] is True and isinstance(c[1], tuple) and c[1][0] == 'cmp' and c[1][1] == 'Eq':
+                        # an if / else-if chain on `c == 'x'` instead of a match
+                        a_, b_ = c[1][2], c[1][3]
+                        if a_ == SYM('c') and is_num_(b_):
+                            codes = int(b_[1])
+                        elif b_ == SYM('c') and is_num_(a_):
+                            codes = int(a_[1])
                 fr = o.st.frames[sx.region_fid]
                 delta = {}
                 for l in state:
@@ -540,8 +551,6 @@ def transition_lemmas(ctx, fo):
                 except (NotNumeric, TypeError):
                     return a == b
 
-            def is_num_(v):
-                return isinstance(v, tuple) and v[0] == 'num'
             by = {}
             for nm, o, dl in steps:
                 by.setdefault(nm, []).append((o, dl))
